@@ -666,6 +666,15 @@ class Interp:
         elif what == 'args':
             _mutate_value(fr.args)
             _mutate_value(fr.kwargs)
+        elif what == 'versions':
+            # the caller edits the dictionary it passed as ``versions`` to
+            # build_versioned while the build is running
+            vo = getattr(self, 'versions_obj', None)
+            if vo is not None and self.mode == 'real':
+                for v in list(vo.values()):
+                    _mutate_value(v)
+                for f in sorted(self.funcs):
+                    vo[self.funcs[f]['name']] = 'MUT'
         elif what == 'callargs':
             # the caller edits the containers it passed to its last
             # build_file / subbuild call, after that call returned or raised
